@@ -151,10 +151,10 @@ var hintMisses int
 // observable has been stable for a while.
 func (f *fq) settle(pre, hint string, grace time.Duration) string {
 	if hint != "" && !f.broken {
-		deadline := 2500 * time.Millisecond
+		deadline := 6 * time.Second
 		if hintMisses >= 8 { // only on a defective queue: keep the run short, the verdict is already decided
 			deadline = 150 * time.Millisecond
-		} else if hintMisses >= 3 {
+		} else if hintMisses >= 2 {
 			deadline = 600 * time.Millisecond
 		}
 		end := time.Now().Add(deadline)
@@ -363,7 +363,11 @@ func (a *forcedArea) Run(line string) string {
 			return "bad-op"
 		}
 		f.releaseAll()
-		end := time.Now().Add(2500 * time.Millisecond)
+		wait := 6 * time.Second
+		if hintMisses >= 2 {
+			wait = 600 * time.Millisecond
+		}
+		end := time.Now().Add(wait)
 		for {
 			f.mu.Lock()
 			done := f.subIssued == f.subDone && len(f.finished) >= f.subIssued
@@ -373,6 +377,7 @@ func (a *forcedArea) Run(line string) string {
 			}
 			if time.Now().After(end) {
 				f.broken = true
+				hintMisses++
 				break
 			}
 			time.Sleep(100 * time.Microsecond)
